@@ -2,7 +2,7 @@
 """Fills the <!-- MUTANTS-TABLE --> and <!-- SEEDED-TABLE --> blocks of DESIGN.md from recorded results."""
 import json, os, re
 
-V = "/verif"
+V = os.path.dirname(os.path.dirname(os.path.abspath(__file__)))
 
 
 def mutants():
